@@ -183,6 +183,7 @@ func checkC11(r *Run) {
 		}
 	}
 
+	onlyTerminationChannelsClosed(r, connFns, "close-once")
 	ioDeadlineArmed(r, "io-deadline")
 	c11RetryOnlyTransient(r, p, "io-retry", connFns, "a failed read/write is treated as temporary although the error is not a transient net.Error: the loop spins or drops replies for ever, the connection is never closed, serve never returns and Stop never runs")
 	c11CancelAll(r, p)
@@ -217,6 +218,12 @@ func checkC11(r *Run) {
 	// H. session.Stop (shared engines)
 	ts, _ := runSessionTypestate(p, true)
 	c13Stop(r, ts)
+	// Stop takes the lock of every fid it releases: an operation that returns with a fid lock still held makes
+	// Stop — and with it ServeConn — wait for ever
+	{
+		tsL, fnsL := runSessionTypestate(p, false)
+		lockPairingInto(r, tsL, fnsL, "stop-can-lock")
+	}
 	akeys := []string{}
 	for k := range ts.acc {
 		akeys = append(akeys, k)
@@ -688,4 +695,18 @@ func isCloseCall(in ssa.Instruction) bool {
 	}
 	n := calleeName(&c.Call)
 	return n == "(*p9p.transport).close" || n == "(*p9p.conn).Close"
+}
+
+// onlyTerminationChannelsClosed: in the component, close() is applied only to the termination channels (closed,
+// shutdown, done): data channels have senders in other goroutines, and a send on a closed channel panics.
+func onlyTerminationChannelsClosed(r *Run, fns []*ssa.Function, rule string) {
+	n := 0
+	for _, fn := range fns {
+		for _, cs := range closeSites(fn) {
+			n++
+			r.Check(isTermProv(cs.Prov), rule, fnName(fn)+": close() only on a termination channel ("+cs.Prov+")", fn.Pos(),
+				"a data channel is closed while other goroutines may still send on it: send on closed channel panics the process")
+		}
+	}
+	_ = n
 }
